@@ -19,9 +19,12 @@ func init() { register("c04", runC04) }
 
 const c04SysFee = 20_0000_0000 // 20 GAS per case transaction
 
+const c04SenderGas = 30000_0000_0000 // what the paying accounts 5, 6 start with
+
 type c04Input struct {
 	Pre c04State   `json:"pre"`
 	Ops []*c04Node `json:"ops"` // the entry script: these nodes in sequence
+	Snd int        `json:"snd"` // who pays: 0 the committee account, 1 / 2 account 5 / 6 (the committee co-signs)
 	FB  int        `json:"fb"`  // read-only filler transactions before the case transaction in the same block
 	FA  int        `json:"fa"`  // ... and after it
 }
@@ -52,7 +55,7 @@ func (n *c04Node) any(f func(*c04Node) bool) bool {
 
 func (n *c04Node) isCall() bool {
 	switch n.tag() {
-	case c04Call, c04Move, c04SetFee, c04NotifyFee:
+	case c04Call, c04Move, c04MoveNeo, c04SetFee, c04NotifyFee:
 		return true
 	}
 	return false
@@ -106,7 +109,10 @@ func c04Class(root *c04Node) (kind, cls string) {
 
 // ---- generator ----
 
+var c04NeoAmounts = []int{0, 1, 500000, 2000000, 4000000, 30000000}
+
 type c04Gen struct {
+	noNeo   bool // block cases: claims depend on the block height, the replica runs one transaction per block
 	r       *rng
 	noCalls bool // inside a finally block (guarded mode)
 	noBare  bool // inside a catch block that has a finally (guarded mode): calls only inside nested try bodies
@@ -116,7 +122,7 @@ type c04Gen struct {
 }
 
 var c04FlagChoices = []int{15, 15, 15, 15, 15, 15, 15, 15, 15, 15, 15, 15, 15, 15, 15, 15, 15, 15, 7, 11, 5, 3, 13, 1, 0, 14}
-var c04Amounts = []int{0, 1, 40, 500, 999, 1200}
+var c04Amounts = []int{0, 1, 40, 500, 999, 1200, 900000000, 4000000000}
 
 func (g *c04Gen) leaf() *c04Node {
 	r := g.r
@@ -161,7 +167,10 @@ func (g *c04Gen) prog(d int) *c04Node {
 		sub.noBare, sub.inTry = false, false
 		return &c04Node{Op: "call", C: r.intn(c04NContracts), Flags: pick(r, c04FlagChoices), Body: sub.prog(d - 1)}
 	case x < 56 && !g.noCalls:
-		n := &c04Node{Op: "move", C: r.intn(c04NContracts + c04NPlain), V: pick(r, c04Amounts)}
+		n := &c04Node{Op: "move", C: r.intn(c04NAcc), V: pick(r, c04Amounts)}
+		if !g.noNeo && r.chance(45) {
+			n = &c04Node{Op: "moveneo", C: r.intn(c04NNeo), V: pick(r, c04NeoAmounts)}
+		}
 		if r.chance(60) {
 			sub := *g
 			sub.noBare, sub.inTry = false, false
@@ -307,8 +316,12 @@ func (p *c04Pair) both(txs ...*transaction.Transaction) error {
 	return nil
 }
 
-// setup: bring the observable state from cur to want with halting transactions (storage, fee, balances upwards)
-func (p *c04Pair) setup(cur, want c04State) error {
+// setup: bring the observable state from cur to want with halting transactions: storage, fee, NEO balances (upwards)
+// and votes first, then (after looking again: NEO operations mint GAS) GAS balances upwards
+func (p *c04Pair) setup(cur, want c04State) error { return p.setupMode(cur, want, true) }
+
+// exact = false: balances in want are minimums (topping up)
+func (p *c04Pair) setupMode(cur, want c04State, exact bool) error {
 	var ops []*c04Node
 	have := map[[2]int]int{}
 	for _, kv := range cur.Store {
@@ -317,6 +330,18 @@ func (p *c04Pair) setup(cur, want c04State) error {
 	wantm := map[[2]int]int{}
 	for _, kv := range want.Store {
 		wantm[[2]int{kv.C, kv.K}] = kv.V
+	}
+	var txs []*transaction.Transaction
+	for i := range want.Neo {
+		c := int64(0)
+		if i < len(cur.Neo) {
+			c = cur.Neo[i]
+		}
+		if want.Neo[i] > c {
+			txs = append(txs, p.a.newTx(c04TokenTransferScript(p.a, p.a.env.neo, p.a.env.account(i), want.Neo[i]-c), 1_0000_0000))
+		} else if want.Neo[i] < c {
+			return fmt.Errorf("setup cannot lower the NEO balance of account %d from %d to %d", i, c, want.Neo[i])
+		}
 	}
 	for c := 0; c < c04NContracts; c++ {
 		var body []*c04Node
@@ -332,14 +357,42 @@ func (p *c04Pair) setup(cur, want c04State) error {
 		if c == 0 && cur.FeeCache != want.FeeCache {
 			body = append(body, &c04Node{Op: "setfee", V: int(want.FeeCache)})
 		}
+		if c < len(want.Vote) && (c >= len(cur.Vote) || cur.Vote[c] != want.Vote[c]) {
+			body = append(body, &c04Node{Op: "vote", V: want.Vote[c]})
+		}
 		if len(body) > 0 {
 			ops = append(ops, &c04Node{Op: "call", C: c, Flags: 15, Body: c04SeqOf(body)})
 		}
 	}
-	var txs []*transaction.Transaction
+	for i := c04NContracts; i < len(want.Vote); i++ {
+		if want.Vote[i] != 0 {
+			return fmt.Errorf("setup cannot make the plain account %d vote", i)
+		}
+	}
 	if len(ops) > 0 {
 		txs = append(txs, p.a.newTx(p.a.env.entryScript(c04SeqOf(ops)), c04SysFee))
 	}
+	run := func(txs []*transaction.Transaction) error {
+		if len(txs) == 0 {
+			return nil
+		}
+		if err := p.both(txs...); err != nil {
+			return err
+		}
+		for _, tx := range txs {
+			if aer := p.a.e.GetTxExecResult(p.a.t, tx.Hash()); aer.VMState != vmstate.Halt {
+				return fmt.Errorf("setup transaction failed: %s", aer.FaultException)
+			}
+		}
+		return nil
+	}
+	if err := run(txs); err != nil {
+		return err
+	}
+	if len(txs) > 0 {
+		cur = p.a.observe()
+	}
+	txs = nil
 	for i := range want.Bal {
 		c := int64(0)
 		if i < len(cur.Bal) {
@@ -347,22 +400,11 @@ func (p *c04Pair) setup(cur, want c04State) error {
 		}
 		if want.Bal[i] > c {
 			txs = append(txs, p.a.newTx(c04TransferScript(p.a, p.a.env.account(i), want.Bal[i]-c), 1_0000_0000))
-		} else if want.Bal[i] < c {
+		} else if want.Bal[i] < c && exact {
 			return fmt.Errorf("setup cannot lower the balance of account %d from %d to %d", i, c, want.Bal[i])
 		}
 	}
-	if len(txs) == 0 {
-		return nil
-	}
-	if err := p.both(txs...); err != nil {
-		return err
-	}
-	for _, tx := range txs {
-		if aer := p.a.e.GetTxExecResult(p.a.t, tx.Hash()); aer.VMState != vmstate.Halt {
-			return fmt.Errorf("setup transaction failed: %s", aer.FaultException)
-		}
-	}
-	return nil
+	return run(txs)
 }
 
 // filler: a transaction that only reads the observable state (events carry what it saw)
@@ -387,29 +429,71 @@ func c04Short(s string) string {
 	return s
 }
 
-func c04Coq3(kvs []c04KV) string {
-	xs := make([]string, len(kvs))
-	for i, kv := range kvs {
-		k, v := kv.K, kv.V
+// all storage namespaces of the model as (namespace, key, value) entries; claims only for a pre-state
+func (st c04State) coqEntries(withClaims bool) string {
+	var xs []string
+	add := func(ns, k int, v int64) {
+		if v == 0 {
+			return
+		}
+		if v < 0 {
+			v = 999999999999
+		}
 		if k < 0 {
 			k = 9999
 		}
-		if v < 0 {
-			v = 9999
-		}
-		xs[i] = fmt.Sprintf("(%d,%d,%d)", kv.C, k, v)
+		xs = append(xs, fmt.Sprintf("(%d,%d,%d)", ns, k, v))
 	}
+	for _, kv := range st.Store {
+		v := int64(kv.V)
+		if v == 0 {
+			v = 999999999999 // an empty value is not something the trees write
+		}
+		add(kv.C, kv.K, v)
+	}
+	for a, b := range st.Bal {
+		add(100, a, b)
+	}
+	for a, b := range st.Neo {
+		add(102, a, b)
+	}
+	if withClaims {
+		for a, b := range st.Claim {
+			add(102, 10+a, b)
+		}
+	}
+	for a, b := range st.Vote {
+		add(102, 20+a, int64(b))
+	}
+	add(102, 30, st.Cand)
+	add(102, 31, st.Voters)
 	return coqList(xs)
 }
-func c04CoqInts(xs []int64) string {
-	ss := make([]string, len(xs))
-	for i, x := range xs {
-		if x < 0 {
-			x = 999999999
-		}
-		ss[i] = fmt.Sprint(x)
+
+func c04CoqB(b bool) int {
+	if b {
+		return 1
 	}
-	return coqList(ss)
+	return 0
+}
+
+// the model's name of a payer: accounts 5, 6, or 9 for the committee account (outside the observed universe)
+func c04SenderN(snd int) int {
+	if snd >= 1 && snd <= c04NSenders {
+		return c04NContracts + c04NPlain + snd - 1
+	}
+	return 9
+}
+
+// what a state must be after a transaction that changed nothing but took its fee
+func (st c04State) minusFee(snd int, fee int64) c04State {
+	o := st
+	o.Bal = append([]int64{}, st.Bal...)
+	if snd >= 1 && snd <= c04NSenders {
+		o.Bal[c04NContracts+c04NPlain+snd-1] -= fee
+	}
+	o.VC = false
+	return o
 }
 
 func (n *c04Node) hasFailure() bool {
@@ -424,15 +508,16 @@ func (p *c04Pair) runCase(co *caseOut, in c04Input) {
 		panic("c04: entry-level tree uses an operation that needs a contract")
 	}
 	cur := p.a.observe()
-	if !reflect.DeepEqual(cur, in.Pre) {
+	if !cur.samePre(in.Pre) {
 		if err := p.setup(cur, in.Pre); err != nil {
 			panic(fmt.Sprintf("c04 setup: %v", err))
 		}
 		cur = p.a.observe()
-		if !reflect.DeepEqual(cur, in.Pre) {
+		if !cur.samePre(in.Pre) {
 			panic(fmt.Sprintf("c04 setup did not reach the pre-state: %+v vs %+v", cur, in.Pre))
 		}
 	}
+	in.Pre.Claim = cur.Claim
 	if cur.FeeCache != cur.FeeStore {
 		co.violation(kind, "Policy fee: native cache and contract storage disagree before the case", in, cur)
 	}
@@ -440,7 +525,8 @@ func (p *c04Pair) runCase(co *caseOut, in c04Input) {
 	for i := 0; i < in.FB; i++ {
 		before = append(before, p.filler(i))
 	}
-	tx := p.a.newTx(p.a.env.entryScript(root), c04SysFee)
+	tx := p.a.newTxFrom(in.Snd-1, p.a.env.entryScript(root), c04SysFee, 1)
+	fee := tx.SystemFee + tx.NetworkFee
 	for i := 0; i < in.FA; i++ {
 		after = append(after, p.filler(i+1))
 	}
@@ -475,15 +561,15 @@ func (p *c04Pair) runCase(co *caseOut, in c04Input) {
 	} else if d := c04SameMap(p.a.dumpAll(), p.b.dumpAll()); len(d) > 0 {
 		co.violation(kind, "storage dumps differ although state roots agree: "+strings.Join(d, "; "), in, impl)
 	}
-	if !impl.Halt && !reflect.DeepEqual(impl.Post, in.Pre) {
-		co.violation(kind, "a FAULTed transaction changed storage / balances / Policy setting", in, impl)
+	if !impl.Halt && !impl.Post.same(in.Pre.minusFee(in.Snd, fee)) {
+		co.violation(kind, "a FAULTed transaction changed storage / balances (its fee aside) / NEO accounts, votes / Policy or NEO cache", in, impl)
 	}
 	if impl.Post.FeeCache != impl.Post.FeeStore {
 		co.violation(kind, "Policy fee: native cache and contract storage disagree after the block", in, impl)
 	}
-	for i := 0; i <= c04NContracts+c04NPlain; i++ {
+	for i := 0; i <= c04NAcc; i++ {
 		acc := p.a.owner.ScriptHash()
-		if i < c04NContracts+c04NPlain {
+		if i < c04NAcc {
 			acc = p.a.env.account(i)
 		}
 		if ta, tb := p.a.transfers(acc), p.b.transfers(acc); !reflect.DeepEqual(ta, tb) {
@@ -508,9 +594,10 @@ func (p *c04Pair) runCase(co *caseOut, in c04Input) {
 	if kind != "tree" {
 		clsN = 1
 	}
-	term := fmt.Sprintf("CTree %d %s %s %d %s %s %s %s %d %d %s", clsN, c04Coq3(in.Pre.Store), c04CoqInts(in.Pre.Bal), in.Pre.FeeCache,
-		root.coq(), coqBool(impl.Halt), c04Coq3(impl.Post.Store), c04CoqInts(impl.Post.Bal),
-		max(impl.Post.FeeCache, 0), max(impl.Post.FeeStore, 0), coqList(evs))
+	// votesChanged is reset by NEO.OnPersist at the start of every block of this one-member committee: 0 when the transaction starts
+	term := fmt.Sprintf("CTree %d %s %d 0 %d %d %s %s %s %d %d %d %s", clsN, in.Pre.coqEntries(true), in.Pre.FeeCache,
+		c04SenderN(in.Snd), fee, root.coq(), coqBool(impl.Halt), impl.Post.coqEntries(false),
+		max(impl.Post.FeeCache, 0), max(impl.Post.FeeStore, 0), c04CoqB(impl.Post.VC), coqList(evs))
 	out := "fault"
 	if impl.Halt {
 		out = "halt"
@@ -525,7 +612,35 @@ func (p *c04Pair) runCase(co *caseOut, in c04Input) {
 	if root.any(func(x *c04Node) bool { return x.tag() == c04SetFee }) {
 		tag += "/setfee"
 	}
+	if root.any(func(x *c04Node) bool { return x.tag() == c04MoveNeo }) {
+		tag += "/neo"
+	}
 	co.add(kind, tag, root.hasFailure(), in, impl, term)
+}
+
+// topUp: accounts that ran low get more, so that transfers keep succeeding and failing in a mix
+func c04TopUp(cur c04State) (c04State, bool) {
+	top := cur
+	top.Bal = append([]int64{}, cur.Bal...)
+	top.Neo = append([]int64{}, cur.Neo...)
+	need := false
+	for i := 0; i < c04NContracts; i++ {
+		if top.Bal[i] < 300 {
+			top.Bal[i] += 1000
+			need = true
+		}
+		if top.Neo[i] < 1000000 {
+			top.Neo[i] += 5000000
+			need = true
+		}
+	}
+	for i := c04NContracts + c04NPlain; i < c04NAcc; i++ {
+		if top.Bal[i] < 200_0000_0000 {
+			top.Bal[i] += c04SenderGas
+			need = true
+		}
+	}
+	return top, need
 }
 
 func runC04(args []string) error {
@@ -578,7 +693,9 @@ func runC04(args []string) error {
 		p = c04NewPair()
 		st := p.a.observe()
 		want := st
-		want.Bal = []int64{1000, 1000, 1000, 0, 0}
+		want.Bal = []int64{1000, 1000, 1000, 0, 0, c04SenderGas, c04SenderGas}
+		want.Neo = []int64{10000000, 6000000, 3000000, 0, 0}
+		want.Vote = []int{1, 1, 0, 0, 0}
 		if err := p.setup(st, want); err != nil {
 			panic(err)
 		}
@@ -595,26 +712,16 @@ func runC04(args []string) error {
 		if ncase++; ncase%400 == 0 {
 			fresh()
 		}
-		// top up accounts that ran low, so that transfers keep succeeding and failing in a mix
 		cur := p.a.observe()
-		top := cur
-		top.Bal = append([]int64{}, cur.Bal...)
-		need := false
-		for i := 0; i < c04NContracts; i++ {
-			if top.Bal[i] < 300 {
-				top.Bal[i] += 1000
-				need = true
-			}
-		}
-		if need {
-			if err := p.setup(cur, top); err != nil {
+		if top, need := c04TopUp(cur); need {
+			if err := p.setupMode(cur, top, false); err != nil {
 				broken = true
 				co.violation("tree", "set-up transaction could not be applied: "+err.Error(), c04Input{Pre: cur, Ops: ops}, nil)
 				return
 			}
 			cur = p.a.observe()
 		}
-		in := c04Input{Pre: cur, Ops: ops}
+		in := c04Input{Pre: cur, Ops: ops, Snd: r.intn(1 + c04NSenders)}
 		if r.chance(30) {
 			in.FB = 1 + r.intn(2)
 		}
@@ -706,17 +813,8 @@ func runC04(args []string) error {
 			fresh()
 		}
 		cur := p.a.observe()
-		top := cur
-		top.Bal = append([]int64{}, cur.Bal...)
-		need := false
-		for j := 0; j < c04NContracts; j++ {
-			if top.Bal[j] < 300 {
-				top.Bal[j] += 1000
-				need = true
-			}
-		}
-		if need {
-			if err := p.setup(cur, top); err != nil {
+		if top, need := c04TopUp(cur); need {
+			if err := p.setupMode(cur, top, false); err != nil {
 				broken = true
 				co.violation("block", "set-up transaction could not be applied: "+err.Error(), c04BlockInput{Pre: cur}, nil)
 				break
@@ -728,6 +826,9 @@ func runC04(args []string) error {
 			in.Ops = append(in.Ops, c04GenEnder(r))
 		}
 		in.Ops = append(in.Ops, c04GenLater(r))
+		for k := range in.Ops { // two or three different payers in one block
+			in.Ops[k].Snd = r.intn(1 + c04NSenders)
+		}
 		func() {
 			defer func() {
 				if x := recover(); x != nil && !broken {
